@@ -1,12 +1,13 @@
 /-
   Assembly of C16 / C09, part 6: the fillers' contract as they actually keep it.
 
-  `ShiftOk r`: no SHIFT, or a SHIFT of at most 365 calendar days either way (business-day shifts: open, see the
-  report in Props/C16).  With `KindOk` (RrAsm1) the seven per-filler theorems combine to `fill_contract`;
-  `fill_total` says every filler call returns; `fill_kind` / `fill_wf` hand the provisos on to the next seed.
+  `ShiftOk r`: no SHIFT, a SHIFT of at most 365 calendar days either way, or one of at most 250 business days
+  either way.  With `KindOk` (RrAsm1) the seven per-filler theorems combine to `fill_contract`;
+  `fill_total` says every filler call returns; `fill_kind` hands `KindOk` on to the next seed.
 -/
 import Echse.Lemmas.RrAsm5
 import Echse.Lemmas.RrAsm2
+import Echse.Lemmas.RrAsm9
 import Echse.Lemmas.RrHlyOk
 import Echse.Lemmas.RrMnlyOk
 import Echse.Lemmas.RrSlyOk
@@ -15,79 +16,114 @@ open Echse.Rrule Echse.Instant Echse.Spec.RrOk
 open Echse.Lemmas.RrCandOk Echse.Lemmas.RrYlyOk Echse.Lemmas.RrMlyOk
 
 theorem dayShift_fields (n : Int) :
-    shDvalue (n * 65536) = n ∧ shLow (n * 65536) = 0 ∧ shBdayP (n * 65536) = false ∧ shBvalue (n * 65536) = 0 := by
+    shDvalue (n * 65536) = n ∧ shLow (n * 65536) = 0 ∧ shBdayP (n * 65536) = false ∧ shBvalue (n * 65536) = 0 ∧
+      shNegP (n * 65536) = false := by
   have s1 : shDvalue (n * 65536) = n := by unfold shDvalue; omega
   have s2 : shLow (n * 65536) = 0 := by unfold shLow; omega
-  refine ⟨s1, s2, by simp [shBdayP, s2], ?_⟩
-  unfold shBvalue shNegP shAbsval
-  rw [s2]; simp
+  have s3 : shNegP (n * 65536) = false := by unfold shNegP; rw [s2]; decide
+  refine ⟨s1, s2, by simp [shBdayP, s2], ?_, s3⟩
+  unfold shBvalue shAbsval
+  rw [s2, s3]; simp
 
-theorem ylyStart_back (r : Rule) (p : Inst) (n : Int) (hs : r.shift = n * 65536) (hn : n ≤ 0) : ylyStart r p = p.y := by
-  obtain ⟨s1, _, s3, _⟩ := dayShift_fields n
+/-- a SHIFT without a forward part does not make the yearly loop start earlier -/
+theorem ylyStart_noback (r : Rule) (p : Inst) (h1 : shDvalue r.shift ≤ 0)
+    (h2 : shBdayP r.shift = false ∨ shNegP r.shift = true) : ylyStart r p = p.y := by
   unfold ylyStart
-  rw [hs, s1, s3]
-  simp only [Bool.false_eq_true, false_and, or_false]
-  rw [if_neg (by omega)]
+  rw [if_neg]
+  intro ⟨h, _⟩
+  rcases h with h | ⟨h3, h4⟩
+  · omega
+  · rcases h2 with h2 | h2
+    · rw [h2] at h3; cases h3
+    · rw [h2] at h4; cases h4
 
-theorem mlyBack_back (r : Rule) (p : Inst) (n : Int) (hs : r.shift = n * 65536) (hn : n ≤ 0) : mlyBack r p = (p.y, (p.m : Int)) := by
-  obtain ⟨s1, _, s3, s4⟩ := dayShift_fields n
-  have ht : mlyTmp r = n := by
-    unfold mlyTmp
-    rw [hs, s1, s3, s4]
-    simp [tdiv]
+/-- … nor the monthly loop -/
+theorem mlyBack_noback (r : Rule) (p : Inst) (h : mlyTmp r ≤ 0) : mlyBack r p = (p.y, (p.m : Int)) := by
   unfold mlyBack
-  rw [ht]
   simp only []
   rw [if_neg (by omega)]
 
-/-- the SHIFTs covered: none, or up to 365 calendar days forward or backward -/
-def ShiftOk (r : Rule) : Prop := r.shift = 0 ∨ ∃ n : Int, r.shift = n * 65536 ∧ -365 ≤ n ∧ n ≤ 365
+/-- the SHIFTs covered: none; up to 365 calendar days forward or backward (`SHIFT=n`); up to 250 business days
+forward or backward, in any of the forms `nB`, `nB+`, `nB-`, `-0B` (`BdayOnly`, RrAsm9).  Not covered: both parts
+at once (`SHIFT=n,mB`). -/
+def ShiftOk (r : Rule) : Prop :=
+  r.shift = 0 ∨ (∃ n : Int, r.shift = n * 65536 ∧ -365 ≤ n ∧ n ≤ 365) ∨ BdayOnly r.shift
 
 theorem ShiftOk.congr {r r' : Rule} (h : ShiftOk r) (e : r'.shift = r.shift) : ShiftOk r' := by
   unfold ShiftOk; rw [e]; exact h
 
-/-- a forward SHIFT (or none) keeps dates real in every year: the proviso of the per-filler theorems -/
-theorem ShiftOk.keepsDates_fwd {r : Rule} (h : ShiftOk r) (hf : 0 ≤ r.shift) : ShiftKeepsDates r.shift := by
-  rcases h with h | ⟨n, h, h1, h2⟩
-  · rw [h]; exact shiftKeepsDates_zero
-  · by_cases h0 : n = 0
-    · subst h0; rw [h]; exact shiftKeepsDates_zero
-    · rw [h]; exact shiftKeepsDates_days_fwd n ⟨by omega, h2⟩
+/-- the SHIFT has no backward part -/
+def FwdShift (sh : Int) : Prop := 0 ≤ sh ∧ shNegP sh = false
 
 /-- in year `y ≥ 1` every covered SHIFT keeps dates real; in year 0 the forward ones -/
-theorem ShiftOk.keepsAt {r : Rule} (h : ShiftOk r) (y : Nat) (hy : 1 ≤ y ∨ 0 ≤ r.shift) : KeepsAt r.shift y := by
-  rcases h with h | ⟨n, h, h1, h2⟩
+theorem ShiftOk.keepsAt {r : Rule} (h : ShiftOk r) (y : Nat) (hy : 1 ≤ y ∨ FwdShift r.shift) : KeepsAt r.shift y := by
+  rcases h with h | ⟨n, h, h1, h2⟩ | h
   · rw [h]; exact keepsAt_zero y
   · by_cases h0 : n = 0
     · subst h0; rw [h]; exact keepsAt_zero y
-    · rw [h]; exact keepsAt_days n y ⟨h0, h1, h2⟩ (by omega)
+    · rw [h]; refine keepsAt_days n y ⟨h0, h1, h2⟩ ?_
+      rcases hy with hy | hy
+      · exact Or.inl hy
+      · have := hy.1; right; omega
+  · exact keepsAt_bdays r.shift y h (hy.imp id (·.2))
+
+/-- a forward SHIFT (or none) keeps dates real in every year: the proviso of the per-filler theorems -/
+theorem ShiftOk.keepsDates_fwd {r : Rule} (h : ShiftOk r) (hf : FwdShift r.shift) : ShiftKeepsDates r.shift :=
+  (shiftKeepsDates_iff _).mpr fun y _ => h.keepsAt y (Or.inr hf)
+
+/-- a covered SHIFT that is not forward has no forward part at all -/
+theorem ShiftOk.back_fields {r : Rule} (h : ShiftOk r) (hf : ¬ FwdShift r.shift) :
+    shDvalue r.shift ≤ 0 ∧ (shBdayP r.shift = false ∨ shNegP r.shift = true) ∧ mlyTmp r ≤ 0 := by
+  rcases h with h | ⟨n, h, h1, h2⟩ | h
+  · exact absurd ⟨by omega, by rw [h]; decide⟩ hf
+  · obtain ⟨s1, _, s3, s4, s5⟩ := dayShift_fields n
+    have hn : n < 0 := by
+      apply Classical.byContradiction
+      intro hc
+      exact hf ⟨by omega, by rw [h]; exact s5⟩
+    refine ⟨by rw [h, s1]; omega, Or.inl (by rw [h]; exact s3), ?_⟩
+    unfold mlyTmp
+    rw [h, s1, s3, s4]
+    simp [tdiv]; omega
+  · obtain ⟨_, s1, s2, _, _⟩ := bdayOnly_fields r.shift h
+    have hneg : shNegP r.shift = true := by
+      cases hn : shNegP r.shift
+      · exact absurd ⟨by have := h.1; omega, hn⟩ hf
+      · rfl
+    refine ⟨by omega, Or.inr hneg, ?_⟩
+    unfold mlyTmp
+    rw [s1, hneg]
+    simp only [Bool.not_true, Bool.false_eq_true, and_false, if_false]
+    unfold shBvalue
+    rw [hneg]
+    simp only [if_true]
+    have e : -((shAbsval r.shift : Nat) : Int) * 7 = -((shAbsval r.shift * 7 : Nat) : Int) := by omega
+    rw [e, (Echse.RuleExt.tdiv_neg _).1]
+    omega
 
 theorem ShiftOk.yly {r : Rule} (h : ShiftOk r) (p : Inst) (hp : WfInst p) :
     ∀ y, ylyStart r p ≤ y → y ≤ 2099 → KeepsAt r.shift y := by
   intro y hy _
-  by_cases hf : 0 ≤ r.shift
+  by_cases hf : FwdShift r.shift
   · exact h.keepsAt y (Or.inr hf)
-  · rcases h with h | ⟨n, h, _, _⟩
-    · omega
-    · rw [ylyStart_back r p n h (by omega)] at hy
-      have := hp.year
-      exact ShiftOk.keepsAt (Or.inr ⟨n, h, by assumption, by assumption⟩) y (Or.inl (by omega))
+  · obtain ⟨b1, b2, _⟩ := h.back_fields hf
+    rw [ylyStart_noback r p b1 b2] at hy
+    have := hp.year
+    exact h.keepsAt y (Or.inl (by omega))
 
 theorem ShiftOk.mly {r : Rule} (h : ShiftOk r) (p : Inst) (hr : WfRule r) (hp : WfInst p) :
     ∀ y0 m0 y, mlyStart r p = some (y0, m0) → y0 ≤ y → y ≤ 2099 → KeepsAt r.shift y := by
   intro y0 m0 y hst hy _
-  by_cases hf : 0 ≤ r.shift
+  by_cases hf : FwdShift r.shift
   · exact h.keepsAt y (Or.inr hf)
-  · rcases h with h | ⟨n, h, h1, h2⟩
-    · omega
-    · have hb := mlyBack_back r p n h (by omega)
-      have hy0 : p.y ≤ y0 := by
-        unfold mlyStart at hst
-        rw [hb] at hst
-        split at hst
-        · exact mlyTrack_y r.mon r.inter hr.inter _ _ _ _ _ _ (by have := hp.month; dsimp only; omega) hst
-        · injection hst with hst; injection hst with e1 e2; omega
-      have := hp.year
-      exact ShiftOk.keepsAt (Or.inr ⟨n, h, h1, h2⟩) y (Or.inl (by omega))
+  · have hb := mlyBack_noback r p (h.back_fields hf).2.2
+    have hy0 : p.y ≤ y0 := by
+      unfold mlyStart at hst
+      rw [hb] at hst
+      split at hst
+      · exact mlyTrack_y r.mon r.inter hr.inter _ _ _ _ _ _ (by have := hp.month; dsimp only; omega) hst
+      · injection hst with hst; injection hst with e1 e2; omega
+    have := hp.year
+    exact h.keepsAt y (Or.inl (by omega))
 
 end Echse.Lemmas.RrAsm
